@@ -12,7 +12,7 @@ use std::{
 };
 
 use crate::{
-    common::INTERNAL_NESTED_TYPE_NAME_PREFIX,
+    common::{INTERNAL_ITEM_TYPE_NAME_PREFIX, INTERNAL_NESTED_TYPE_NAME_PREFIX},
     intermediate::{
         constraints::integer_type_of, error::*, information_object::*, types::*, utils::*, *,
     },
@@ -1099,7 +1099,7 @@ impl ASN1Value {
             }
             (ASN1Type::SetOf(s), ASN1Value::SequenceOrSet(val))
             | (ASN1Type::SequenceOf(s), ASN1Value::SequenceOrSet(val)) => {
-                *self = Self::link_array_like(val, s, tlds)?;
+                *self = Self::link_array_like(val, s, tlds, type_name)?;
                 Ok(())
             }
             (ASN1Type::SetOf(s), ASN1Value::LinkedNestedValue { value, .. })
@@ -1107,7 +1107,7 @@ impl ASN1Value {
                 if matches![**value, ASN1Value::SequenceOrSet(_)] =>
             {
                 if let ASN1Value::SequenceOrSet(val) = &mut **value {
-                    **value = Self::link_array_like(val, s, tlds)?;
+                    **value = Self::link_array_like(val, s, tlds, type_name)?;
                 }
                 Ok(())
             }
@@ -1579,16 +1579,47 @@ impl ASN1Value {
         val: &mut [(Option<String>, Box<ASN1Value>)],
         s: &SequenceOrSetOf,
         tlds: &BTreeMap<String, ToplevelDefinition>,
+        type_name: Option<&String>,
     ) -> Result<ASN1Value, GrammarError> {
+        // The element type of a `SEQUENCE OF` or `SET OF` type assignment is a type of its own in the
+        // bindings, unless it is a reference. It is identified by the name of the assignment.
+        let names_type_assignment = |name: &String| {
+            name.starts_with(INTERNAL_ITEM_TYPE_NAME_PREFIX)
+                || matches!(
+                    tlds.get(name),
+                    Some(ToplevelDefinition::Type(ToplevelTypeDefinition {
+                        ty: ASN1Type::SequenceOf(_) | ASN1Type::SetOf(_),
+                        ..
+                    }))
+                )
+        };
+        let element_type_name = type_name
+            .filter(|name| {
+                !matches!(*s.element_type, ASN1Type::ElsewhereDeclaredType(_))
+                    && names_type_assignment(name)
+            })
+            .map(|name| INTERNAL_ITEM_TYPE_NAME_PREFIX.to_owned() + name);
         let _ = val.iter_mut().try_for_each(|v| {
             v.1.link_with_type(
                 tlds,
                 &s.element_type,
-                Some(&s.element_type.as_str().into_owned()),
+                element_type_name
+                    .clone()
+                    .or_else(|| Some(s.element_type.as_str().into_owned()))
+                    .as_ref(),
             )
         });
         Ok(ASN1Value::LinkedArrayLikeValue(
-            val.iter().map(|v| v.1.clone()).collect(),
+            val.iter()
+                .map(|v| match (&element_type_name, &*v.1) {
+                    // CHOICE values carry the name of their type
+                    (Some(_), ASN1Value::Choice { .. }) | (None, _) => v.1.clone(),
+                    (Some(element_type), _) => Box::new(ASN1Value::LinkedNestedValue {
+                        supertypes: vec![element_type.clone()],
+                        value: v.1.clone(),
+                    }),
+                })
+                .collect(),
         ))
     }
 
